@@ -34,7 +34,7 @@ CLAIMED = {
             "DAGGER, named measurements) with solver-chosen names, qubits and bodies, optionally followed by a redefinition of the first signature, queried by 7 gate / 4 "
             "measurement shapes: the real add_instruction / get_match_for_gate / get_match_for_measurement against a reference precedence function and replace-in-place "
             "list written from the statement.", TRUST, "5/C16"),
-    "C17": ("All programs of <= 2 calibrations (4 gate headers incl. mixed fixed/variable qubits x 14 bodies incl. recursion, growing parameters, body MEASURE/RESET/DECLARE/PRAGMA EXTERN; 3 measure headers incl. measurement for effect x 5 bodies incl. a gate) and "
+    "C17": ("All programs of <= 2 calibrations (4 gate headers incl. mixed fixed/variable qubits x 15 bodies incl. recursion, growing parameters, body MEASURE/RESET/DECLARE/PRAGMA EXTERN and one body with every remaining instruction kind that can carry a qubit variable: SWAP-PHASES, frame updates, both DELAY forms; 3 measure headers incl. measurement for effect x 5 bodies incl. a gate) and "
             "a body of <= N gate / measure instructions (quick 1, thorough 2): both expansion entry points against a reference expander (substitution of qubit and parameter "
             "variables everywhere, measurement target replaces the target name only, fixpoint, declarations hoisted).", TRUST, "5/C17"),
     "C18": ("Same inputs as C17: expansion must return (call depth bounded by the interpreter; a divergence is replayed natively in a child process) and report "
@@ -65,14 +65,14 @@ CLAIMED = {
             "frames / invoked waveforms / called externs kept, other definitions unchanged. Schedule clause: on the sub-space of bodies with known durations (gate, template pulse, "
             "FENCE, DELAY, SET-PHASE, RESET q; calibration none or FENCE) the real BasicBlock::as_schedule_seconds of the simplified and of the expanded program are equal.",
             TRUST + "; in the schedule sub-space ExternSignature::from_str and validate_user_identifier are table stubs (they go through the lexer)", "5/C35"),
-    "C20": ("Programs of <= K gate definitions (quick 2, thorough 3; sequence definitions of one or two elements on one or two qubits with / without a parameter, a DAGGER element, "
+    "C20": ("Programs of <= K gate definitions (quick 2, thorough 3; sequence definitions of one or two elements on one or two qubits with / without a parameter (also with the formal inside a function call), a DAGGER element, "
             "a matrix definition) whose names and element names the solver chooses from {A,B,C} (nesting, self-reference, cycles, redefinition, arity mismatch), <= N body "
             "instructions (quick 1, thorough 2) and every filter over the names: both entry points against a reference expander; errors exactly for cycles / arity / modifier / "
             "non-fixed qubit misuse; kept definitions = unselected or reachable from unselected; termination (call depth bound).", TRUST, "5/C20"),
-    "C21": ("Same inputs as C20: both entry points return the same program / the same error kind; the source map has one entry per source instruction in order, unmodified entries "
+    "C21": ("Same inputs as C20, and for programs of one definition optionally a DEFCAL whose body invokes a gate named from {A,B,C}: both entry points return the same program / the same error kind; the source map has one entry per source instruction in order, unmodified entries "
             "point at identical instructions, rewritten ranges are contiguous and equal to what the reference produced, nested maps relative to the parent range, recursively.",
             TRUST, "5/C21"),
-    "C22": ("All single blocks of <= N instructions (quick 2, thorough 3) plus an optional terminator over 18 classical / RF templates (incl. a capture that reads its own target region and MOVEs on an undeclared region) with solver-chosen operands, "
+    "C22": ("All single blocks of <= N instructions (quick 2, thorough 3) plus an optional terminator, and two-block programs (one instruction, a terminator, one instruction; every block held to the same requirements), over 18 classical / RF templates (incl. a capture that reads its own target region and MOVEs on an undeclared region) with solver-chosen operands, "
             "scheduled by the real ScheduledProgram::from_program: every edge points forward in block order; with all RF instructions matched every node is reachable "
             "from the start and reaches the end.", TRUST, "5/C22"),
     "C23": ("(a) one step of DependencyQueue::<MemoryAccessType>::record_access_and_get_dependencies from an arbitrary queue state (any pending write/capture, <= 2 pending "
